@@ -43,7 +43,7 @@ impl Callbacks for Cb {
     }
 }
 
-fn main() {
+fn main() -> std::process::ExitCode {
     // As a workspace wrapper we are called as: <driver> <rustc> <args...>
     let mut args: Vec<String> = std::env::args().collect();
     if args.len() > 1 && (args[1].ends_with("rustc") || args[1].contains("/rustc")) {
@@ -54,5 +54,5 @@ fn main() {
     let mut cb = Cb { krate, out };
     rustc_driver::catch_with_exit_code(move || {
         rustc_driver::run_compiler(&args, &mut cb);
-    });
+    })
 }
